@@ -401,6 +401,44 @@ def facts_futgen(repo, lean):
     return res
 
 
+def facts_hamt(repo, lean):
+    """Tie C for C03 / C04: harness/cmd/hamtfacts (go/ast + go/types, build tag verif) extracts from the WORKING TREE's
+    immutable/map.go every constant with its value, the struct types with their fields, the interfaces, the methods per
+    receiver type (node kinds = the types declaring every method of mapNode), every comparison against a compile-time
+    constant (promotion / demotion thresholds: function, lhs, operator, bound), every hash-fragment expression
+    `(hash >> shift) & mask`, the argument handed to `shift` at every call, the argument of every bits.OnesCount32 call, the
+    length of the iterator's stack array, and per function / method / closure its normalised statement tree (skeleton), and
+    writes FpVerif/Gen/HamtFacts.lean.  The committed theorems of Spec/C03Facts `decide` on that table: the constants EQUAL
+    the constants of Model/Hamt.lean, every threshold has the operator and bound of the model's branch, the node kinds are
+    the five constructors of Hamt.Node with the expected methods and fields, the shift / popcount arithmetic is the model's,
+    the iterator stack has >= ceil(32 / mapNodeBits) + 1 slots, and every modelled function's skeleton equals the one
+    written next to the model definition it mirrors."""
+    out = os.path.join(lean, 'FpVerif', 'Gen', 'HamtFacts.lean')
+    os.makedirs(os.path.dirname(out), exist_ok=True)
+    harness = os.path.join(os.path.dirname(lean), 'harness')
+    env = dict(os.environ, GOFLAGS='-mod=mod', GOPROXY='off', GOSUMDB='off', GOTOOLCHAIN='local')
+    tmp_out = out + '.new.%d' % os.getpid()
+    p = subprocess.run(['go', 'run', './cmd/hamtfacts', repo, tmp_out], cwd=harness, env=env, stdout=subprocess.PIPE,
+                       stderr=subprocess.STDOUT, text=True)
+    if p.returncode != 0 or not os.path.exists(tmp_out):
+        # a tree the extractor cannot type-check has no table: the theorems must not be discharged against a stale one
+        if os.path.exists(out):
+            os.remove(out)
+        return dict(error='hamtfacts failed: ' + p.stdout[-800:], obligations=1)
+    # keep the old file (and its build products) when the table did not change (C03 and C04 both regenerate it)
+    if not os.path.exists(out) or open(out).read() != open(tmp_out).read():
+        os.replace(tmp_out, out)
+    else:
+        os.remove(tmp_out)
+    info = json.loads(p.stdout.strip().split('\n')[-1])
+    info['obligations'] = 1
+    info['generated'] = 'FpVerif/Gen/HamtFacts.lean'
+    if info.get('warnings'):
+        info['error'] = 'hamtfacts: constructs outside the extracted fragment: ' + p.stdout[-800:]
+    return info
+
+
+
 import re as _re
 
 def project_future(line):
@@ -499,7 +537,8 @@ CHECKS = {
         assumptions=['panic values are compared by their canonical rendering', 'debug.Stack() content of try.panicError is not modelled'],
     ),
     'C03': dict(
-        spec=['FpVerif.Spec.C03', 'FpVerif.Spec.C03All'],
+        spec=['FpVerif.Spec.C03', 'FpVerif.Spec.C03All', 'FpVerif.Spec.C03Facts'],
+        facts=facts_all(facts_hamt),
         harnesses=[H('hamt', 'oracle_hamt', 40000, 4000000)],
         level='proof',
         modelled='immutable/map.go (all node kinds, set/delete/get, mergeIntoNode, explicit-stack iterator, builders incl. the in-place path), '
@@ -512,8 +551,8 @@ CHECKS = {
         spec=['FpVerif.Spec.C04Seq', 'FpVerif.Spec.C04Facts', 'FpVerif.Spec.C04Frame', 'FpVerif.Spec.C04Hamt', 'FpVerif.Spec.C03',
               # a lazy fp.List shows the same contents for ever only because each of its cells is a Once-guarded memo (seed C04-10:
               # fp.Memoize without the Once - two goroutines forcing one cell both consume the source and see different lists)
-              'FpVerif.Spec.C16Facts', 'FpVerif.Spec.C16Panic', 'FpVerif.Spec.C16PanicEval'],
-        facts=facts_c04,
+              'FpVerif.Spec.C16Facts', 'FpVerif.Spec.C16Panic', 'FpVerif.Spec.C16PanicEval', 'FpVerif.Spec.C03All', 'FpVerif.Spec.C03Facts'],
+        facts=facts_all(facts_c04, facts_hamt),
         harnesses=[H('seqheap', 'oracle_seqheap', 4000, 200000),
                    H('frame', None, 60000, 3000000, nontrivial=lambda op, impl: op.count('(') >= 2),
                    H('hamt', 'oracle_hamt', 40000, 4000000),
@@ -961,5 +1000,13 @@ for _pid in ('C06', 'C14'):
     CHECKS[_pid]['modelled'] = CHECKS[_pid].get('modelled', '') + _TIE_A_FUT
 CHECKS['C06']['technique'] = ('Lean 4 proof over hand-written executable task-atomic model + regenerated Go->Lean translation of the derived future combinators proved equal to '
                               'the model programs (Tie A) + regenerated atomic-step facts (Tie C) + differential correspondence check')
+_TIE_C_HAMT = (' Session 6, Tie C: harness/cmd/hamtfacts extracts from the working tree\'s immutable/map.go every constant, struct, node kind, threshold comparison, '
+               'hash-fragment / shift / popcount expression, the iterator stack length and per function its normalised statement tree (FpVerif/Gen/HamtFacts.lean); '
+               'Spec/C03Facts (81 theorems): constants == Model/Hamt.lean\'s, every promotion / demotion threshold has the model\'s operator and bound (model_* branch theorems), '
+               'five node kinds = constructors of Hamt.Node, iterator stack >= ceil(32 / mapNodeBits) + 1, 55 per-function skeletons.')
+for _pid in ('C03', 'C04'):
+    CHECKS[_pid]['modelled'] = CHECKS[_pid].get('modelled', '') + _TIE_C_HAMT
+    CHECKS[_pid]['technique'] = ('Lean 4 proof over hand-written executable model (value level and pointer level) + regenerated structure facts of immutable/map.go decided by the kernel '
+                                 '(Tie C) + differential correspondence check incl. trie shape and sharing')
 CHECKS['C16']['technique'] = ('Lean 4 proof over hand-written executable model + regenerated Go->Lean translation of lazy/lazy.go proved equal to the model (Tie A) '
                               '+ regenerated atomic-step / memoisation facts decided by the kernel (Tie C) + differential correspondence check')
